@@ -4,7 +4,7 @@ from model import (dstr, strip, fact_holds, mentions_field, mentions_call, menti
                    const_value, walk)
 from rules import (guarded, calls_to, field_writes, who_may_write, full_range, loops_over,
                    every_iteration_passes, basename, origins, is_var, is_enum, lastname)
-from props.scan_common import (OUTDIRTY, ts_role, ts_comparisons, check_cc, effect_returns,
+from props.scan_common import (OUTDIRTY, check_prune_recheck, ts_role, ts_comparisons, check_cc, effect_returns,
                                effect_assigns, true_succ)
 
 
@@ -208,7 +208,8 @@ def run(ctx):
     ok = any(fact_holds(fc.facts_at(e), is_var('node_cleaned'), True) for e in resets)
     ctx.check('C02.CC4', ok, fc.name, 'record_mtime:no-reset-after-prune', fc.loc,
               'after a prune the recorded mtime is reset to the command start time')
-    ctx.floor('C02.CC4', 5)
+    check_prune_recheck(ctx, 'C02.CC4', prog)
+    ctx.floor('C02.CC4', 7)
 
     # ---- W1: up-to-date wiring -----------------------------------------------------------------
     R('C02.W1', 'W', 'AlreadyUpToDate == !more_to_do(); RunBuild returns success after "no work to '
